@@ -52,6 +52,8 @@ type filler struct {
 	payloads msgs.Payloads
 	version  int16
 	mode     int // 0 zero value, 1 small full, 2 random, 3 random wide
+	bigN     int // > 0: the next (non-byte) slice gets this many elements (once)
+	bigBytes int // > 0: the next []byte gets this many bytes (once)
 }
 
 func (f *filler) str() string {
@@ -152,6 +154,11 @@ func (f *filler) fill(v reflect.Value, depth int) {
 			ver = f.forceRS
 		}
 		recs := f.records()
+		if ver < 2 { // message formats 0 / 1 have no record headers
+			for i := range recs {
+				recs[i].Headers = nil
+			}
+		}
 		payload, err := msgs.RecordPayload(ver, cloneRecs(recs))
 		if err != nil {
 			return
@@ -202,6 +209,13 @@ func (f *filler) fill(v reflect.Value, depth int) {
 		}
 		if t.Elem().Kind() == reflect.Uint8 {
 			switch {
+			case f.bigBytes > 0:
+				b := make([]byte, f.bigBytes)
+				for i := range b {
+					b[i] = byte(i*31 + i>>8)
+				}
+				f.bigBytes = 0
+				v.SetBytes(b)
 			case f.mode == 1:
 				v.SetBytes([]byte{1, 2, 3})
 			case f.r.Intn(5) == 0:
@@ -213,7 +227,9 @@ func (f *filler) fill(v reflect.Value, depth int) {
 			return
 		}
 		n := 1
-		if f.mode >= 2 {
+		if f.bigN > 0 {
+			n, f.bigN = f.bigN, 0
+		} else if f.mode >= 2 {
 			switch f.r.Intn(6) {
 			case 0:
 				return // nil
@@ -367,8 +383,55 @@ func generate() {
 			}
 		}
 	}
+	generateBig(w, r)
 	generateMarshal(w, r)
 	generateLegacyRead(w, r)
+}
+
+// generateBig: values whose arrays / byte sequences are longer than the decoder's first allocation (decodeElems: 1024 elements,
+// read: 64 KiB), with counts that are NOT chunk·2^k: the buffer is regrown while the value arrives and must end with exactly
+// the announced number of elements / bytes (Props/C04 array_decodes_to_announced_length, bytes_decode_to_announced_length).
+func generateBig(w *bufio.Writer, r *rand.Rand) {
+	counts := []int{1025 + r.Intn(1000)} // not 1024·2^k
+	sizes := []int{65537 + r.Intn(5000)}
+	arrays := map[int]bool{3: true, 30: true} // Metadata, CreateAcls (flexible in its last versions)
+	blobs := map[int]bool{14: true}                     // SyncGroup (compact bytes from v4)
+	if gen.Thorough() {
+		counts = append(counts, 1024, 1025, 2048, 2049, 3000, 5000)
+		sizes = append(sizes, 65536, 131072, 131073, 200001, 1000001)
+		arrays[16], arrays[18], arrays[42], blobs[36] = true, true, true, true // ListGroups, ApiVersions, DeleteGroups, SaslAuthenticate
+	}
+	for i, m := range msgs.All {
+		if m.Override || !(arrays[m.ApiKey] || blobs[m.ApiKey]) {
+			continue
+		}
+		lo, hi := versions(m)
+		for _, ver := range []int16{lo, hi} {
+			if arrays[m.ApiKey] {
+				for _, n := range counts {
+					f := &filler{r: r, payloads: msgs.Payloads{}, version: ver, mode: 1, bigN: n}
+					msg := m.New()
+					f.fill(reflect.ValueOf(msg).Elem(), 0)
+					if f.bigN == 0 { // the message has an array
+						emitCase(w, i, m, ver, f, msg, false)
+					}
+				}
+			}
+			if blobs[m.ApiKey] {
+				for _, n := range sizes {
+					f := &filler{r: r, payloads: msgs.Payloads{}, version: ver, mode: 1, bigBytes: n}
+					msg := m.New()
+					f.fill(reflect.ValueOf(msg).Elem(), 0)
+					if f.bigBytes == 0 {
+						emitCase(w, i, m, ver, f, msg, false)
+					}
+				}
+			}
+			if lo == hi {
+				break
+			}
+		}
+	}
 }
 
 func emitCase(w *bufio.Writer, i int, m msgs.Msg, ver int16, f *filler, msg protocol.Message, withClientID bool) {
